@@ -74,6 +74,21 @@ func anyAtTag(f *SrcFile) bool {
 func TestC07(t *testing.T) {
 	rapid.Check(t, func(t *rapid.T) {
 		f := genSrcFile(t, "m.pb.go", rapid.IntRange(0, 2).Draw(t, "minAnnotated"))
+		if rapid.IntRange(0, 4).Draw(t, "repeatedKey") == 3 {
+			// one @tag comment names a key twice (what that means for the merge is C06's business and not
+			// defined there; whatever run 1 makes of it, run 2 has nothing left to do)
+			for di := range f.Decls {
+				for fi := range f.Decls[di].Fields {
+					fl := &f.Decls[di].Fields[fi]
+					if fl.AtTag && len(fl.Inject) > 0 && len(fl.Inject) < 60 && rapid.Bool().Draw(t, "repeatHere") {
+						again := fl.Inject[rapid.IntRange(0, len(fl.Inject)-1).Draw(t, "repeatIdx")]
+						again.V = rapid.SampledFrom([]string{"to=1~3", "again", again.V}).Draw(t, "repeatVal")
+						fl.Inject = append(fl.Inject, again)
+						ev.Class("an @tag comment that names a key twice")
+					}
+				}
+			}
+		}
 		c := &InjectCase{File: *f}
 		n := rapid.IntRange(1, 4).Draw(t, "runs")
 		for i := 0; i < n; i++ {
